@@ -33,3 +33,9 @@ def classify(prop, v):
         if fn is not None and fn(v):
             return e
     return None
+
+
+@classifier('K1')
+def _k1(v):
+    # emitted only by C05's fixed probe: `.NAME(*)` selecting the zero-argument message NAME()
+    return v.get('kind') == 'const-true-arg-item' and v.get('case', {}).get('text', '').endswith('(*)')
